@@ -44,7 +44,12 @@ FINISH = dict(
          "under the account write lock). Mode errors: badNonce with and without Replay-Nonce, serverInternal, "
          "unauthorized (as many attempts fail as such answers were served) and successes without Replay-Nonce "
          "at random positions of newOrder/authz/challenge/order/finalize/cert/newAccount, half of the CAs "
-         "without nonces on GET. Mode amnesia: accounts forgotten together with a contact / key change (the "
+         "without nonces on GET. Mode runs: per certificate one recoverable error (badNonce with a fresh nonce, "
+         "serverInternal, rateLimited) answered to ONE request (its first newOrder / authorization / challenge / finalize "
+         "request and every repetition of it) 1 / 9 / 10 / 11 times in a row or for ever; exactly the attempts refused "
+         "DEFAULT_HTTP_FAIL_NB_RETRY = 10 times or more must fail, every run is served min(length, 10) times; a request "
+         "repeated more than 30 times is answered slowly and 20 s without a lock event end the round as never-returning. "
+         "Mode amnesia: accounts forgotten together with a contact / key change (the "
          "update request of synchronize is the one refused), by one CA only, for one account key only, and a "
          "CA refusing every newOrder with accountDoesNotExist (every attempt returns failed). "
          "accountDoesNotExist answers are counted per account key, so a key the CA still knows has no allowance. "
@@ -57,7 +62,16 @@ FINISH = dict(
 )
 
 
-MODES = ["first", "forgotten", "changes", "dropped", "binding", "staggered", "errors", "amnesia", "savefail"]
+MODES = ["first", "forgotten", "changes", "dropped", "binding", "staggered", "errors", "amnesia", "savefail", "runs"]
+# mode runs: a recoverable error answered to ONE request (the first newOrder / authorization / challenge / finalize
+# request of a certificate, and every repetition of it) 1 / 9 / 10 / 11 times in a row, or for ever.  The client makes
+# DEFAULT_HTTP_FAIL_NB_RETRY = 10 tries: a run of 10 or more makes exactly that attempt give up, the others succeed.
+RUN_KINDS = ["newOrder", "authz", "challenge", "finalize"]
+RUN_HOWS = ["badNonce", "serverInternal", "rateLimited"]           # (badNonce: every refusal carries a fresh nonce)
+RUN_LENGTHS = [1, 9, 10, 11, 10 ** 6]
+HTTP_TRIES = 10                    # DEFAULT_HTTP_FAIL_NB_RETRY
+RUN_CAP = 30                       # answers to ONE request after which the CA takes a second for every further one
+RUN_IDLE_MS = 20000                # nothing happens for that long (no lock event, no attempt returns): never returning
 # mode savefail: STORAGE faults at Account::save (the only write of a first round: right after the newAccount answer);
 # the last one is the control (a failing hook that is allowed to fail: the save succeeds)
 SAVEFAIL = ["pre-hook-fails", "post-hook-fails", "path-is-directory", "directory-removed", "directory-is-file",
@@ -112,7 +126,7 @@ def build_scenario(rng, idx, mode, corner=None, k=0, slow=False):
         c = rng.choice(certs)
         o = sc["ca"][int(c["endpoint"][2:])]
         o["prevalid"] = sorted(set(o["prevalid"]) | {i["dns"] for i in c["identifiers"]})
-    if mode != "errors" and (slow or rng.random() < 0.2):
+    if mode not in ("errors", "runs") and (slow or rng.random() < 0.2):
         # more polls needed than the client makes: every attempt that has to wait for this CA must give up
         rng.choice(sc["ca"])[rng.choice(SLOW_KEYS)] = rng.choice(NEVER)
     # ---- timing: late starters, one slow challenge hook, hooks run by Account::save under the account write lock
@@ -133,6 +147,19 @@ def build_scenario(rng, idx, mode, corner=None, k=0, slow=False):
                 pos[(kind, rng.randrange(top.get(kind, 2 * len(on)) + 1))] = ERR_HOWS[(h0 + r) % len(ERR_HOWS)]
             o["errors"] = sorted([kd, n, how] for (kd, n), how in pos.items())
             o["nonce_on_get"] = rng.random() < 0.5
+    if mode == "runs":
+        # per certificate (random patterns: three out of four) one run, aimed at its first identifier; k = the number
+        # of certificates of the `runs` scenarios planned before this one: the combinations are taken in turn (15
+        # consecutive ones: every error x every length; 12: every error x every request kind)
+        for c, crt in enumerate(certs):
+            if corner is None and rng.random() < 0.25:
+                continue
+            i = k + c
+            how, n, kind = RUN_HOWS[i % 3], RUN_LENGTHS[(i // 3) % 5], RUN_KINDS[i % 4]
+            dns = crt["identifiers"][0]["dns"]
+            o = sc["ca"][int(crt["endpoint"][2:])]
+            o["prevalid"] = [x for x in o["prevalid"] if x != dns]       # (the challenge request must exist)
+            o.setdefault("runs", []).append([kind, dns, how, n, crt["name"]])
     if mode == "amnesia":
         sc["amnesia"] = [AMNESIA[(3 * k + i) % len(AMNESIA)] for i in range(3)]    # two scenarios cover all five
     if mode == "savefail":
@@ -151,6 +178,9 @@ def expected_failures(sc):
         if o.get("order_polls_before_valid", 0) > POOL_TRIES or \
                 (o.get("polls_before_valid", 0) > POOL_TRIES
                  and any(i["dns"] not in o.get("prevalid", []) for i in c["identifiers"])):
+            out.add(c["name"])
+        # mode runs: as many refusals in a row as the client makes tries
+        if any(r[4] == c["name"] and r[3] >= HTTP_TRIES for r in o.get("runs", [])):
             out.add(c["name"])
     return out
 
@@ -205,6 +235,53 @@ def error_rules(ca, errors):
     return [{"kind": kind, "nth": nth, "label": "err:" + how, "answer": answers[how]} for kind, nth, how in errors]
 
 
+def install_runs(ca, runs):
+    """Mode `runs`: [kind, dns, how, length, certificate]: the first request of that kind about the identifier `dns`
+    AND every repetition of it (same URL, same payload, same key) is answered with the recoverable error `how`,
+    `length` times in a row.  A request repeated more than RUN_CAP times is answered slowly from then on (a client
+    that never gives up then neither floods the log nor looks busy: the idle limit of the probe ends the scenario)."""
+    answers = {"badNonce": ca.problem(400, "badNonce"), "serverInternal": ca.problem(500, "serverInternal"),
+               "rateLimited": ca.problem(429, "rateLimited")}
+    state = [{"kind": kd, "dns": dns, "how": how, "left": n, "cert": crt, "ident": None, "served": 0}
+             for kd, dns, how, n, crt in runs]
+    orig = ca.match_rule
+
+    def about(kind, rec):
+        """The identifier value(s) the request is about."""
+        tail = (rec.get("path") or "").split("/")[-1]
+        if kind == "newOrder":
+            return rec.get("payload") or ""
+        if kind == "finalize":
+            return json.dumps((ca.orders.get(tail) or {}).get("identifiers"))
+        if kind == "challenge":
+            tail = (ca.challs.get(tail) or {}).get("authz")
+        return json.dumps((ca.authzs.get(tail) or {}).get("identifier"))
+
+    def match_rule(kind, nth, gidx, rec=None):
+        rec = rec or {}
+        with ca.lock:
+            for st in state:
+                if st["kind"] != kind or st["left"] <= 0:
+                    continue
+                hdr = rec.get("hdr") or {}
+                ident = [rec.get("path"), rec.get("payload"), hdr.get("kid") or json.dumps(hdr.get("jwk"), sort_keys=True)]
+                if st["ident"] is None:
+                    if '"%s"' % st["dns"] not in about(kind, rec):
+                        continue
+                    st["ident"] = ident
+                elif st["ident"] != ident:
+                    continue
+                st["left"] -= 1
+                st["served"] += 1
+                ans = dict(answers[st["how"]])
+                if st["served"] > RUN_CAP:
+                    ans["delay_ms"] = 1000
+                return {"label": "run:" + st["how"], "answer": ans}
+        return orig(kind, nth, gidx, rec)
+    ca.match_rule = match_rule
+    return state
+
+
 def forget(cas, what, pick):
     """The CAs lose accounts (answer accountDoesNotExist to their kid from now on): all of them, those of one CA,
     or those of ONE account key (on every CA that knows it)."""
@@ -245,6 +322,7 @@ def run_rounds(sc, root, helper):
         opts["authz_status"] = {n: "valid" for n in o.get("prevalid", [])}
         ca = mockca.MockCA(helper, rules=rules, opts=opts)
         ca.rules += error_rules(ca, o.get("errors", []))
+        ca.run_state = install_runs(ca, o["runs"]) if o.get("runs") else []
         ca.o["delay_ms"] = 0
         ca.rand_delay = o.get("rand_delay", sc["delay"])
         ca.start()
@@ -307,12 +385,16 @@ def run_rounds(sc, root, helper):
             stagger = sc.get("stagger", stagger)
             # (attempts that go on registering for ever keep logging lock events: there the overall bound decides)
             res = vlib.probe([{"op": "concurrent_attempts", "path": cfg_path, "threads": sc["threads"], "stagger_ms": stagger,
-                               "retries": sc.get("retries", 0), "timeout_ms": 30000 if persistent else 60000,
+                               "retries": sc.get("retries", 0),
+                               "timeout_ms": RUN_IDLE_MS if sc["mode"] == "runs" else 30000 if persistent else 60000,
                                "max_ms": 60000 if persistent else 600000}], timeout=700)[0]
             for ca, r in zip(cas, persistent):
                 ca.rules.remove(r)
             rounds.append({"what": what, "res": res, "index": len(rounds),
                            "ca_logs": [ca.log[m:] for ca, m in zip(cas, marks)],
+                           # mode runs: [kind, how, planned length, answers served, certificate] of every run
+                           "runs": [[st["kind"], st["how"], r[3], st["served"], st["cert"]]
+                                    for ca, o in zip(cas, sc.get("ca") or []) for st, r in zip(ca.run_state, o.get("runs", []))],
                            # the account-file hooks that ran in this round: [hook name, exit status]
                            "acc_hook_recs": [[r.get("name"), r.get("exit")]
                                              for r in flow.read_log(os.path.join(d, "hooks.log"))[hook_mark:]
@@ -358,6 +440,16 @@ def harness_clause(ctx, sc, rnd, res, robj):
         savefail_clause(ctx, sc, rnd, res, name, failed, detail)
     elif sc["mode"] == "dropped" or rnd["what"] not in FAIL_FREE_ROUNDS:
         pass
+    elif sc["mode"] == "runs":
+        # every run met its request and was served as often as the client tries, no more; exactly the attempts
+        # that were refused 10 times in a row failed
+        off = [r for r in rnd.get("runs") or [] if r[3] != min(r[2], HTTP_TRIES)]
+        if off:
+            ctx.broke("harness", "runs [kind, how, length, served, certificate] not served min(length, %d) times: %s"
+                      % (HTTP_TRIES, off), detail)
+        elif failed != expected_failures(sc):
+            ctx.broke("harness", "attempts %s failed; refused %d times in a row or more: %s"
+                      % (sorted(failed), HTTP_TRIES, sorted(expected_failures(sc))), detail)
     elif sc["mode"] == "errors":
         fatal = sum(1 for log in rnd["ca_logs"] for e in log if e["kind"] == "req" and e.get("rule") == "err:unauthorized")
         if len(failed) != fatal:
@@ -470,6 +562,10 @@ def judge_round(ctx, sc, rnd):
     v = vlib.model([{"op": "c12_judge", "tasks": tasks, "events": events, "all_returned": res["all_returned"],
                      "pairs": pairs, "nonces": nonces}])[0]
     ctx.count("round:" + rnd["what"])
+    for kd, how, n, served, _ in rnd.get("runs") or []:
+        ctx.count("runs:%s@%s" % (how, kd))
+        ctx.count("runs:%s x %s" % (how, "for-ever" if n > 1000 else n))
+        ctx.count("runs:answers-served", served)
     ctx.count("threads:%d" % sc["threads"])
     ctx.count("lock-events", len(events))
     ok_n = sum(1 for r in res["results"] if r["ok"])
@@ -502,12 +598,19 @@ def plan_scenarios(rng, quick):
 
     def add(mode, corner=None, slow=False):
         k = per_mode[mode] = per_mode.get(mode, -1) + 1
+        if mode == "runs":
+            k = per_mode.get("runs:certificates", 0)
         scs.append(build_scenario(rng, len(scs), mode, corner, k, slow))
+        if mode == "runs":
+            per_mode["runs:certificates"] = k + scs[-1]["ncert"]
     names = sorted(CORNERS, key=lambda c: len(CORNERS[c]))      # the three small ones first
     for mode in MODES:
         first = rng.choice(names)
         for corner in ([first, rng.choice([c for c in names[:3] if c != first])] if quick else names):
             add(mode, corner)
+        if mode == "runs" and quick:         # every (error, run length) combination also in the quick tier
+            for corner in ("8c-1a-3e", "4c-2ax2e-crossed", "8c-1a-1e"):
+                add(mode, corner)
         if mode == "savefail" and quick:     # (one round each:) every kind of storage fault also in the quick tier
             for corner in names[:3] + [rng.choice(names[:5])]:
                 add(mode, corner)
